@@ -1243,6 +1243,18 @@ def _step_function(ctx) -> FuncInfo:
                 nm = cs.node.args[2] if len(cs.node.args) >= 3 else kwarg(cs.node, "name")
                 if nm is not None and try_const(ctx, fi, nm) == part:
                     cands.append(fi)
+        # the attribute written atom by atom:  G.nodes[a][PARTITION] = ...
+        for n in own_walk(fi.node):
+            if isinstance(n, (ast.Assign, ast.AugAssign)):
+                for tg in (n.targets if isinstance(n, ast.Assign) else [n.target]):
+                    if isinstance(tg, ast.Subscript) and isinstance(tg.value, ast.Subscript) and isinstance(tg.value.value, ast.Attribute) \
+                            and tg.value.value.attr in ("nodes", "_node") and try_const(ctx, fi, tg.slice) == part and fi not in cands:
+                        cands.append(fi)
+    cands = list({c.fq: c for c in cands}.values())
+    if len(cands) > 1:
+        # helpers of the step function (called by it) are part of it
+        tops = [c for c in cands if not any(c.fq in ctx.cg.closure([o.fq]) for o in cands if o.fq != c.fq)]
+        cands = tops or cands
     if len(set(cands)) != 1:
         raise AnalysisError(f"R-FIXPOINT: expected exactly one function writing the partition attribute, found {[c.fq for c in set(cands)]}")
     return cands[0]
@@ -1461,144 +1473,62 @@ def _discrete_test(ctx, fi: FuncInfo, test: ast.expr, var: str) -> Optional[bool
 
 @rule("R-OWNFIRST")
 def r_ownfirst(ctx) -> RuleResult:
+    """decided by following the step function with the K-domain interpreter (keyshape.py): the roles of its values are
+    read off whatever way the code is cut into functions, loops and comprehensions"""
+    from ..keyshape import KeyInterp, Undecided
     res = RuleResult("R-OWNFIRST", "refinement key = (own value, sorted neighbour values); class id = rank among the sorted set of keys (dense 0..k-1)")
     step = _step_function(ctx)
-    fn = step.node
-    params = params_of(fn)
-    # 1. key function: the tucan function called per atom with (m, atom, attribute)
-    keyfs = []
-    for cs in sites(ctx, step):
-        if cs.kind == "tucan" and len(cs.node.args) >= 3:
-            keyfs.append(cs.target)
-    keyfs = list({k.fq: k for k in keyfs}.values())
-    if len(keyfs) != 1:
-        raise AnalysisError(f"R-OWNFIRST: expected one key function called by {step.qualname}, found {[k.fq for k in keyfs]}")
-    kf = keyfs[0]
-    kp = params_of(kf.node)
-    if len(kp) < 3:
-        raise AnalysisError("R-OWNFIRST: key function signature changed")
-    g, atom, attr = kp[:3]
-    rets = [n for n in own_walk(kf.node) if isinstance(n, ast.Return) and n.value is not None]
-    if len(rets) != 1:
-        raise AnalysisError("R-OWNFIRST: key function has several returns")
-    rv = rets[0].value
+    K = KeyInterp(ctx, _partition_key(ctx))
+    try:
+        K.run(step)
+    except Undecided as ex:
+        raise AnalysisError(f"R-OWNFIRST: cannot follow {step.qualname}: {ex}")
+    if not K.keys:
+        raise AnalysisError(f"R-OWNFIRST: no per-atom refinement key seen in {step.qualname}")
+    if not K.sinks:
+        raise AnalysisError(f"R-OWNFIRST: {step.qualname} does not write the partition attribute in a way this rule follows")
+    seen = set()
+    for segs, node, f in K.keys:
+        sig = (f.fq, getattr(node, "lineno", 0), segs)
+        if sig in seen:
+            continue
+        seen.add(sig)
 
-    def resolve(e, depth=0):
-        if isinstance(e, ast.Name) and depth < 5:
-            d = single_def(kf.node, e.id)
-            if d is not None:
-                return resolve(d, depth + 1)
-        return e
-
-    def expand(e, depth=0) -> str:
-        """source text of e with local aliases (names bound once to an attribute / call chain) written out"""
-        import re as _re
-        txt = norm(e)
-        for _ in range(4):
-            changed = False
-            for nm in {x.id for x in ast.walk(ast.parse(txt, mode="eval")) if isinstance(x, ast.Name)} - {g, atom, attr}:
-                d = single_def(kf.node, nm)
-                if d is not None and isinstance(d, (ast.Attribute, ast.Subscript, ast.Call)) and not any(isinstance(x, (ast.ListComp, ast.GeneratorExp)) for x in ast.walk(d)):
-                    t2 = _re.sub(rf"\b{nm}\b", norm(d), txt)
-                    if t2 != txt:
-                        txt, changed = t2, True
-            if not changed:
-                break
-        return txt
-
-    def own_value(e) -> bool:
-        e = resolve(e)
-        return expand(e) in (f"{g}.nodes[{atom}][{attr}]", f"{g}.nodes[{atom}].get({attr})", f"{g}.nodes({attr})[{atom}]", f"{g}.nodes.data({attr})[{atom}]",
-                             f"{g}.nodes(data={attr})[{atom}]", f"{g}.nodes.data({attr})[{atom}]", f"{g}._node[{atom}][{attr}]")
-
-    def inplace_sorted(name: str):
-        """None: the list called `name` is sorted in place (plain .sort()) before the return; else why not"""
-        sorts = [x for x in own_walk(kf.node) if isinstance(x, ast.Call) and isinstance(x.func, ast.Attribute) and x.func.attr == "sort"
-                 and isinstance(x.func.value, ast.Name) and x.func.value.id == name]
-        if not sorts:
-            return "no sort"
-        if any(kwarg(x, "key") is not None for x in sorts):
-            return "sorted with a key function"
-        c2 = cfg_of(kf.node)
-        rn = c2.node_of(rets[0])
-        if not any(c2.dominates(c2.stmt_node_containing(x), rn) for x in sorts):
-            return "sorted on some paths only"
-        return None
-
-    def plain_neighbour_values(inner) -> Optional[str]:
-        if isinstance(inner, (ast.ListComp, ast.GeneratorExp)) and len(inner.generators) == 1 and not inner.generators[0].ifs:
-            gen = inner.generators[0]
-            it = expand(gen.iter)
-            tv = gen.target.id if isinstance(gen.target, ast.Name) else None
-            if it in (f"{g}.neighbors({atom})", f"{g}[{atom}]", f"{g}.adj[{atom}]", f"nx.neighbors({g}, {atom})") and tv and \
-                    expand(inner.elt) in (f"{g}.nodes[{tv}][{attr}]", f"{g}.nodes[{tv}].get({attr})"):
-                return None
-            return f"neighbour values come from `{it}` / `{norm(inner.elt)}`"
-        return "unrecognised sequence"
-
-    def sorted_neighbours(e) -> Optional[str]:
-        if isinstance(e, ast.Name):
-            # a list filled by a comprehension and then sorted in place
-            why_ = inplace_sorted(e.id)
-            if why_ is None:
-                defs_ = [getattr(d, "value", None) for d in assigned_names(kf.node).get(e.id, [])]
-                if len(defs_) == 1 and defs_[0] is not None:
-                    pv = plain_neighbour_values(defs_[0])
-                    if pv is None:
-                        return None
-                    if pv != "unrecognised sequence":
-                        return pv
-                    raise AnalysisError(f"R-OWNFIRST: cannot see what the list `{e.id}` holds before it is sorted")
-            elif why_ != "no sort":
-                return why_
-        e = resolve(e)
-        if isinstance(e, ast.Call) and isinstance(e.func, ast.Name) and e.func.id in ("tuple", "list", "reversed") and e.args:
-            return sorted_neighbours(e.args[0])
-        if isinstance(e, ast.Subscript) and isinstance(e.slice, ast.Slice) and e.slice.lower is None and e.slice.upper is None:
-            return sorted_neighbours(e.value)          # sorted(..)[::-1]
-        if isinstance(e, ast.Call) and isinstance(e.func, ast.Name) and e.func.id == "sorted" and e.args:
-            if kwarg(e, "key") is not None:
-                return "sorted with a key function"
-            inner = resolve(e.args[0])
-            pv = plain_neighbour_values(inner)
-            if pv == "unrecognised sequence":
-                raise AnalysisError(f"R-OWNFIRST: cannot see what `{short(inner)}` (sorted into the refinement key) holds")
-            return pv
-        return "neighbour values are not sorted"
-
-    # accepted shapes: tuple([own] + nbrs), (own, *nbrs), tuple([own, *nbrs]), [own] + nbrs, (own,) + tuple(nbrs)
-    shape = resolve(rv)
-    if isinstance(shape, ast.Call) and isinstance(shape.func, ast.Name) and shape.func.id in ("tuple", "list") and shape.args:
-        shape = resolve(shape.args[0])
-    first = rest = None
-    own_last = False
-    if isinstance(shape, ast.BinOp) and isinstance(shape.op, ast.Add):
-        l = resolve(shape.left)
-        r_ = resolve(shape.right)
-        if isinstance(l, (ast.List, ast.Tuple)) and len(l.elts) == 1:
-            first, rest = l.elts[0], shape.right
-        elif isinstance(r_, (ast.List, ast.Tuple)) and len(r_.elts) == 1:
-            first, rest, own_last = r_.elts[0], shape.left, True
-    elif isinstance(shape, (ast.Tuple, ast.List)) and len(shape.elts) == 2 and isinstance(shape.elts[1], ast.Starred):
-        first, rest = shape.elts[0], shape.elts[1].value
-    elif isinstance(shape, (ast.Tuple, ast.List)) and len(shape.elts) == 2:
-        first, rest = shape.elts[0], shape.elts[1]      # (own, sorted_tuple): nested but still own-first
-    if first is None:
-        raise AnalysisError(f"R-OWNFIRST: key shape `{short(rv)}` not recognised")
-    ok1 = own_value(first) and not own_last
-    res.inst(kf.fq, f"key starts with the atom's own value: {short(first)}", "ok" if ok1 else "fail")
-    if not ok1:
-        res.fail(Finding("R-OWNFIRST", kf.module.rel, kf.qualname, norm(rets[0]), "refinement key does not start with the atom's own class: classes may merge across rounds", line=rets[0].lineno))
-    why = sorted_neighbours(rest)
-    res.inst(kf.fq, f"neighbour values sorted: {short(rest)}", "ok" if why is None else "fail")
-    if why is not None:
-        res.fail(Finding("R-OWNFIRST", kf.module.rel, kf.qualname, norm(rets[0]), f"{why}: the key depends on neighbour listing order", line=rets[0].lineno))
-    # 2. ranks: value written under PARTITION is  rank[key]  with rank = {k: i for i, k in enumerate(sorted(set(keys)))}
-    set_call = next(cs.node for cs in sites(ctx, step) if cs.kind == "ext" and cs.target == "networkx.set_node_attributes")
-    ok2, why2 = _dense_rank(ctx, step, set_call)
-    res.inst(step.fq, "class id = rank among sorted(set(keys))", "ok" if ok2 else "fail", detail=why2)
-    if not ok2:
-        res.fail(Finding("R-OWNFIRST", step.module.rel, step.qualname, norm(set_call), why2, line=set_call.lineno))
+        def flat(sg):
+            out = []
+            for s_ in sg:
+                out.extend(flat(s_[1]) if s_[0] == "nested" else [s_])
+            return out
+        fl = flat(segs)
+        kinds_ = [s_[0] for s_ in fl]
+        if any(k_ in ("keysorted",) for k_ in kinds_) or not fl:
+            raise AnalysisError(f"R-OWNFIRST: key `{short(node)}` in {f.qualname} is ordered by a key function this rule does not follow")
+        ok1 = kinds_[0] == "own" and kinds_.count("own") == 1 and "mixed-sorted" not in kinds_
+        res.inst(f.fq, f"key starts with the atom's own value: {short(node, 60)}", "ok" if ok1 else "fail", detail=f"shape {fl}")
+        if not ok1:
+            res.fail(Finding("R-OWNFIRST", f.module.rel, f.qualname, norm(node), "refinement key does not start with the atom's own class: classes may merge across rounds", line=getattr(node, "lineno", None)))
+        unsorted = [s_ for s_ in fl if s_[0] == "nbr" and s_[1] != "sorted"]
+        has_nbr = any(s_[0] == "nbr" for s_ in fl)
+        ok2 = has_nbr and not unsorted
+        res.inst(f.fq, f"neighbour values sorted: {short(node, 60)}", "ok" if ok2 else "fail")
+        if not ok2:
+            why = "neighbour values are not sorted" if has_nbr else "the key holds no neighbour values"
+            res.fail(Finding("R-OWNFIRST", f.module.rel, f.qualname, norm(node), f"{why}: the key depends on neighbour listing order", line=getattr(node, "lineno", None)))
+    # ranks
+    quals = {(q, getattr(n, "lineno", 0), f.fq): (q, n, f) for q, n, f in K.ranks}
+    if not quals:
+        raise AnalysisError(f"R-OWNFIRST: cannot see how {step.qualname} turns keys into class numbers")
+    for q, n, f in quals.values():
+        ok = q == "dense"
+        why = {"dense": "rank over sorted(set(keys))", "listing": "rank table is not built over a sorted sequence: class ids depend on listing order",
+               "dup": "rank table is built over keys with duplicates: class ids are not dense"}.get(q, q)
+        res.inst(f.fq, "class id = rank among sorted(set(keys))", "ok" if ok else "fail", detail=why)
+        if not ok:
+            res.fail(Finding("R-OWNFIRST", f.module.rel, f.qualname, norm(n), why, line=getattr(n, "lineno", None)))
+    for what, n, f in K.sinks:
+        if what != "class":
+            raise AnalysisError(f"R-OWNFIRST: what `{short(n)}` writes under the partition attribute is not recognisably the atom's class ({what})")
+        res.inst(f.fq, f"`{short(n, 60)}` writes each atom's class", "ok")
     return res
 
 
